@@ -53,7 +53,7 @@ let render (r : K.irun) : string =
 
 (* F13: postfinance.go:182 prints a debugging line to stdout.  true = the pinned code; set to
    false once findings/C13-postfinance-debug-println.patch (or an equivalent fix) is applied. *)
-let postfinance_debug = true
+let postfinance_debug = false
 
 (* cobra rejects a missing required flag before run() *)
 let required_account = ["swisscard2"; "postfinance"; "swisscard"]
@@ -104,12 +104,11 @@ let run (imp : string) (inp : string) (obs : string) : string * string =
       else if rows <> "ok" then "FAIL:rows=" ^ rows
       else "ok"
     else
-      (* a damaged statement: exit status 1, nothing on stdout, no panic *)
-      if base = "ERR" then "ok"
-      else if cls = "PANIC" then "FAIL:panic on a malformed statement"
-      else if cls = "ERR+OUT" then "FAIL:output on stdout although the import failed"
-      else if cls = "OK" then "FAIL:malformed statement accepted (" ^ kind ^ ")"
-      else "FAIL:" ^ clip 40 base in
+      (* a damaged statement or a missing/empty account flag: outside C13, which quantifies over
+         well-formed statements (and `import` is not among C14's commands).  No verdict; the
+         exit class and stdout are still compared with the model's (correspondence), and the
+         outcomes are counted in the evidence (input_distribution). *)
+      "ok" in
   (* the observation of a panic carries Go's message; the model only says PANIC *)
   let model_line = if model = "PANIC" && cls = "PANIC" then base else model in
   (model_line ^ " | print=" ^ pr ^ " | rows=" ^ rows, spec)
